@@ -138,12 +138,14 @@ def main():
 
 def explore(mod, res, rng, tier, known_ids, can_drive, cases):
 	"""Run correspondence (model driver vs. real code) and the property oracle over a case stream."""
-	BATCH = 20000
+	BATCH = getattr(mod, 'BATCH', 20000)
 	batch = []
 
 	def flush():
 		if not batch:
 			return
+		if hasattr(mod, 'prepare'):
+			mod.prepare(batch)
 		lines, spans = [], []
 		for case in batch:
 			ml = mod.model_lines(case) if can_drive else None
